@@ -8,9 +8,9 @@ import tools.rect.pseudobool as PB
 
 PID = 'C08'
 FUNCTIONS = ['rect.definecoords', 'rect.enforce_bb', 'rect.solve', 'rect.area', 'SATManager.*', 'pseudobool.* (cost constraint, ROBDD)']
-BOUNDS = {'quick': 'grids 1x2, 2x2, 2x3 with k<=2 boxes and 3x2 with k=2; 5 coordinate families (origin 0 / 1.5, unit / 0.75 / non-uniform '
+BOUNDS = {'quick': 'grids 1x2, 2x2, 2x3 with k<=2 boxes, 3x2 with k=2 and 2x3 with k=3 (two branches on different sides of the trunk); 5 coordinate families (origin 0 / 1.5, unit / 0.75 / non-uniform '
                    'steps) and 3 mixed pairs (different origin and spacing on the two axes); 3 cost bounds in minimum-error mode with 2 occupancy patterns; ALL assignments of the cell variables (symbolic Booleans)',
-          'thorough': '3x3 with k<=3'}
+          'thorough': '3x3 with k<=3, 3x2 with k=3'}
 STUBS = ['SATManager.solve replaced by a recorder (the CNF is taken from the manager rect.solve built; no SAT call) for the model-set '
          'obligations; for the returned-rectangles obligation the real PySAT solver runs (concrete replays) or a z3-backed complete solver']
 ASSUMPTIONS = ['cells form a product grid', 'minimum-error mode (ratio >= 1)', 'PySAT is a complete SAT procedure']
@@ -44,9 +44,9 @@ OCC = {
 
 
 def cases(tier):
-    grids = [(1, 2, 1), (1, 2, 2), (2, 2, 1), (2, 2, 2), (2, 3, 2), (3, 2, 2)]
+    grids = [(1, 2, 1), (1, 2, 2), (2, 2, 1), (2, 2, 2), (2, 3, 2), (3, 2, 2), (2, 3, 3)]   # (rows, columns, boxes)
     if tier == 'thorough':
-        grids += [(3, 3, 2), (3, 3, 3), (2, 3, 3)]
+        grids += [(3, 3, 2), (3, 3, 3), (3, 2, 3)]
     cs = []
     for (R, C, k) in grids:
         for fam in COORDS:
